@@ -132,6 +132,23 @@ func pureOps() []pureOp {
 			}
 			return barcode.Scale(b, 40, 33)
 		})
+		// refused calls: an error path must not leave anything behind either
+		add("err:qr-numeric", func() (barcode.Barcode, error) { return qr.Encode("12a45", qr.M, qr.Numeric) })
+		add("err:qr-alnum", func() (barcode.Barcode, error) { return qr.Encode("AB:cd", qr.L, qr.AlphaNumeric) })
+		add("err:qr-toolong", func() (barcode.Barcode, error) { return qr.Encode(Filler("0123456789", 7200), qr.L, qr.Auto) })
+		add("err:dm-toolong", func() (barcode.Barcode, error) { return datamatrix.Encode(Filler("ABCDEFG", 1600)) })
+		add("err:aztec-layers", func() (barcode.Barcode, error) {
+			return aztec.Encode([]byte("Too much for one compact layer 0123456789"), 33, -1)
+		})
+		add("err:pdf417-level", func() (barcode.Barcode, error) { return pdf417.Encode("Hello", 9) })
+		add("err:pdf417-toolong", func() (barcode.Barcode, error) { return pdf417.Encode(Filler("aB1;& ,z", 3000), 8) })
+		add("err:code128", func() (barcode.Barcode, error) { return up(code128.Encode("Ab\u00e4")) })
+		add("err:code39-full", func() (barcode.Barcode, error) { return up(code39.Encode("Caf\u00e9", true, true)) })
+		add("err:code39-basic", func() (barcode.Barcode, error) { return up(code39.Encode("AB*c", true, false)) })
+		add("err:code93-full", func() (barcode.Barcode, error) { return code93.Encode("Caf\u00e9 93", true, true) })
+		add("err:ean", func() (barcode.Barcode, error) { return up(ean.Encode("12345678")) })
+		add("err:codabar", func() (barcode.Barcode, error) { return codabar.Encode("A12E") })
+		add("err:2of5i", func() (barcode.Barcode, error) { return twooffive.Encode("12345", true) })
 		for _, op := range pureOpList {
 			op := op
 			oneshots[op.name] = func() string { return observe(op.run()) }
@@ -451,7 +468,7 @@ func init() {
 	register(&Check{ID: "C15", Engine: "B", Body: c15Body,
 		Rule: "explicit-state BFS over sequences of encode operations from cold package state; state = contents of the two package-level generator-polynomial caches (hook), de-duplicated exactly, to a fixpoint, plus all raw sequences up to a length; in every state every operation's observation (pixel digest, bounds, Content, Metadata, CheckSum, ColorScheme) must equal the observation of the same call in a freshly started OS process (obtained for every operation of the alphabet), repeat identically in place, and leave caches equal to the reference generators. Map-iteration independence is decided structurally (injective value fields) plus 64 repetitions. Aliasing: every byte of every []byte argument is overwritten after the call.",
 		Assumptions: []string{
-			"operation alphabet: one QR/DataMatrix encode per distinct check-codewords-per-block value (these are the only operations that can change hidden state), three Aztec, three PDF417, one per linear family, two Scale",
+			"operation alphabet: one QR/DataMatrix encode per distinct check-codewords-per-block value (these are the only operations that can change hidden state), three Aztec, three PDF417, one per linear family, two Scale, and 14 refused calls (one or more per entry point, so that error paths are part of every history)",
 			"Go offers no seam to control map iteration order; order-independence is argued from injectivity of the table values",
 		}})
 }
